@@ -23,6 +23,7 @@ def run(ctx: Ctx) -> Collector:
     for fi in analysis_units(ctx.prog):
         if fi.parent is not None and not fi.is_async and fi.cls is None and spliceable(ctx.prog, fi.parent, fi):
             continue        # analysed spliced into its parent
+        fi._prog = ctx.prog  # type: ignore[attr-defined]
         s = spliced(ctx.prog, fi)
         for e in s.events:
             if e.kind == "store":
@@ -52,12 +53,32 @@ def run(ctx: Ctx) -> Collector:
     return c
 
 
+_LOCAL_CACHE: dict = {}
+
+
+def _local_table_name(fi: FuncInfo) -> Optional[str]:
+    """The local table of tables (`X[a][b] = ...`) of a function that builds one (discovered from its
+    stores, whatever the local is called)."""
+    if fi.qualname not in LOCAL_TABLES:
+        return None
+    key = (id(fi), fi.qualname)
+    if key not in _LOCAL_CACHE:
+        name = None
+        for e in summarise(fi._prog, fi).of_kind("store") if hasattr(fi, "_prog") else ():
+            t = e.term[1]
+            if t[0] == "idx" and t[1][0] == "idx" and t[1][1][0] == "var":
+                name = t[1][1][1]
+                break
+        _LOCAL_CACHE[key] = name
+    return _LOCAL_CACHE[key]
+
+
 def _table_of(fi: FuncInfo, t: Term) -> Optional[str]:
     if t[0] == "attr" and t[2] in MIN_FIELDS:
         return t[2]
-    loc = LOCAL_TABLES.get(fi.qualname)
-    if loc and t[0] == "idx" and t[1][0] == "var" and t[1][1].split("§")[0] == loc:
-        return loc
+    loc = _local_table_name(fi)
+    if loc and t[0] == "idx" and t[1][0] == "var" and t[1][1] == loc:
+        return LOCAL_TABLES[fi.qualname]
     return None
 
 
@@ -146,8 +167,8 @@ def _judge_store(ctx: Ctx, c: Collector, fi: FuncInfo, s: Summary, e: Event, tna
             c.unk("store", fi.qualname, construct, f"guard not understood: {ex2}", loc)
         return
     # (b) fresh key seeding of a table created in this call
-    local = LOCAL_TABLES.get(fi.qualname)
-    if local and table[0] == "idx" and table[1][0] == "var" and table[1][1].split("§")[0] == local:
+    local = _local_table_name(fi)
+    if local and table[0] == "idx" and table[1][0] == "var" and table[1][1] == local:
         # key tuple (table[1..], key) must be enumerated from dict keys, each visited once
         outer_key = table[2]
         its = [items_iter(i) for i in e.iters]
